@@ -539,4 +539,87 @@ example : (splitNameDigest nm).2 = [] ∧ (nameToPath nm).isSome = true ∧
   have : nameToPath nm = some [[0x68], [0x6e], [0x6d], [0x74]] := by decide
   rw [this] at hw; cases hw; decide
 
+/-! ### clause 2 over histories; the oracle's step is the theorems' step -/
+
+/-- **A successful store, then anything: still retrievable** (clause 2 over histories).  On a trusted disk a `Put` of `d`
+    under its (non-zero) size that answers ok makes `d` `Present`, and it stays `Present` along every strong history with
+    crashes that follows. -/
+theorem put_ok_stays_retrievable (hash : Bytes → Digest) (sz : Digest → Nat) (k k' : Disk) (d : Digest) (s : Script)
+    (hsz : sz d ≠ 0) (h : AllTrusted hash sz k) (hok : (put hash k d (sz d) s).2 = .ok)
+    (hr : CrashHist hash sz true (put hash k d (sz d) s).1 k') :
+    Present hash sz k' d ∧ getB k' d = .entry (sz d) := by
+  obtain ⟨_, f, hf, hl, hh⟩ := put_ok_retrievable hash k d (sz d) s hsz (h d) hok
+  have hp : Present hash sz (put hash k d (sz d) s).1 d := ⟨f, hf, hl, by rw [hl]; exact hsz, hh⟩
+  have := crash_history_present_persists hash sz _ k' hr d hp
+  exact ⟨this, present_get hash sz k' d this⟩
+
+/-- the same for `Import` -/
+theorem import_ok_stays_retrievable (hash : Bytes → Digest) (sz : Digest → Nat) (k k' : Disk) (n : Nat) (s : Script)
+    (d : Digest) (hok : (importB hash k n s).2 = .digest d) (hsz : sz (hash s.data) = s.data.length)
+    (hne : s.data ≠ []) (hr : CrashHist hash sz true (importB hash k n s).1 k') :
+    Present hash sz k' d ∧ getB k' d = .entry (sz d) := by
+  have hp : Present hash sz (importB hash k n s).1 d := by
+    unfold importB at hok ⊢
+    unfold importEffs at hok ⊢
+    split at hok
+    · next heq =>
+      split at heq
+      · cases heq
+      · split at heq
+        · cases heq
+        · simp only [Prod.mk.injEq, Option.some.injEq] at heq
+          obtain ⟨⟨rfl, rfl⟩, _⟩ := heq
+          simp only [Out.digest.injEq] at hok
+          subst hok
+          refine ⟨s.data, by simp [setBlob_same, run, applyEff], hsz.symm, ?_, rfl⟩
+          intro h0; exact hne (List.eq_nil_of_length_eq_zero h0)
+    · cases hok
+  have := crash_history_present_persists hash sz _ k' hr d hp
+  exact ⟨this, present_get hash sz k' d this⟩
+/-- non-vacuity of the two theorems above: identity hash, `sz = length`; a Put (resp. Import) of `[1,2,3]`, then a failing
+    Put of the same digest: still `Present` -/
+example :
+    let f : Bytes := [1, 2, 3]
+    let sz : Digest → Nat := fun d => d.length
+    (put idh Disk.empty f (sz f) ⟨[f], .eof⟩).2 = .ok ∧ (importB idh Disk.empty 3 ⟨[f], .eof⟩).2 = .digest f ∧
+    CrashHist idh sz true (put idh Disk.empty f (sz f) ⟨[f], .eof⟩).1
+      (stepOp idh true true (put idh Disk.empty f (sz f) ⟨[f], .eof⟩).1 (.put f 3 ⟨[[9]], .err⟩)).1 := by
+  refine ⟨by decide, by decide, ?_⟩
+  exact .step _ _ _ (.refl _) (CrashStep.op _ (.put [1, 2, 3] 3 ⟨[[9]], .err⟩) rfl (fun _ => trivial))
+
+theorem manGet_mem' (mans : List (MPath × Bytes)) (p : MPath) (file : Bytes) (h : manGet mans p = some file) :
+    ∃ e ∈ mans, e.2 = file := by
+  unfold manGet at h
+  cases hf : mans.find? (fun e => e.1 == p) with
+  | none => simp [hf] at h
+  | some e =>
+    simp only [hf, Option.map_some, Option.some.injEq] at h
+    exact ⟨e, List.mem_of_find?_eq_some hf, h⟩
+
+/-- **What the oracle runs is what the theorems talk about.**  The history step the oracle evaluates (`stepOpL`: `Resolve`
+    with its read limit, negative sizes at the tree's variant) IS `stepOp` on every disk whose manifests are within the
+    limit, for the pinned negative-size behaviour — for either `readAndSum` variant. -/
+theorem stepOpL_eq_stepOp (hash : Bytes → Digest) (fixed zc strict : Bool) (lim : Nat) (k : Disk) (op : Op)
+    (hsmall : ∀ e ∈ k.mans, e.2.length ≤ lim) :
+    stepOpL hash fixed zc strict false lim k op = stepOp hash fixed zc k op := by
+  cases op with
+  | resolve name =>
+    simp only [stepOpL, stepOp]
+    apply resolveL_eq_resolve
+    intro want file _ hm
+    obtain ⟨e, he, rfl⟩ := manGet_mem' _ _ _ hm
+    exact hsmall e he
+  | putNeg d s => rfl
+  | put d size s => rfl
+  | importB n s => rfl
+  | get d => rfl
+  | link name d => rfl
+  | linkR name d => rfl
+  | unlink name => rfl
+  | chunk d size a b cd s => rfl
+  | edit name data => rfl
+
+example : stepOpL idh true true false false 2 Disk.empty (.resolve nm) = stepOp idh true true Disk.empty (.resolve nm) :=
+  stepOpL_eq_stepOp idh true true false 2 Disk.empty (.resolve nm) (by intro e he; cases he)
+
 end OllamaVerif.C08
